@@ -233,7 +233,8 @@ static errcode_t reuse_cache(io_channel channel, struct unix_private_data *data,
 	ENSURES(VICTIM_AT_LSTAR ? (RET != 0 || g_disk == (unsigned char)cache->buf[g_ostar]) : g_disk == OLD(g_disk))
 	ENSURES(RET == 0 ? g_wfail == OLD(g_wfail) : g_wfail == 1)
 	ENSURES(data->access_time >= OLD(data->access_time) && data->access_time <= OLD(data->access_time) + 1)
-	ASSIGNS(cache->block, cache->access_time, cache->dirty, cache->in_use, cache->write_err,
+	/* one slice = block, access_time and the three state bits of *cache (everything but the buffer pointer) */
+	ASSIGNS(__CPROVER_object_upto((char *)&cache->block, sizeof(struct unix_cache) - __builtin_offsetof(struct unix_cache, block)),
 		data->access_time, data->io_stats.bytes_written, g_disk, g_nwrites, g_wfail);
 
 /*
